@@ -5,6 +5,7 @@ package c01
 
 import (
 	"fmt"
+	"math"
 	"reflect"
 	"sort"
 	"time"
@@ -494,7 +495,17 @@ func run[V any](r *engine.Rec, c *cfg[V], maxN int) {
 				ops = append(ops, Op{K: "RemoveValue", I: i})
 			}
 		}
+		// the ends of the integer range (a slot is unsigned: -1 and MinInt stand for the two largest magnitudes)
+		for _, i := range []int{math.MinInt, math.MinInt + 1, math.MaxInt} {
+			ops = append(ops, Op{K: "GetValue", I: i}, Op{K: "SetValue", I: i}, Op{K: "GetValues", I: i, J: 1}, Op{K: "GetValues", I: 1, J: i}, Op{K: "SetValues", I: i, S: 1})
+			if !c.array {
+				ops = append(ops, Op{K: "RemoveValue", I: i}, Op{K: "RemoveValues", I: 1, J: i})
+			}
+		}
 		if !c.array {
+			for _, slot := range []int{-1, math.MinInt, math.MaxInt} {
+				ops = append(ops, Op{K: "InsertValue", I: slot}, Op{K: "InsertValues", I: slot, S: 1}, Op{K: "InsertValues", I: slot, S: 0})
+			}
 			for slot := 0; slot <= n+2; slot++ {
 				for v := 0; v < na; v++ {
 					ops = append(ops, Op{K: "InsertValue", I: slot, V: v})
@@ -796,6 +807,10 @@ func units(tier string) []engine.Unit {
 		})
 		add(pre+"[any]", func(r *engine.Rec) {
 			run(r, &cfg[any]{name: "any", alpha: []any{int64(1), "x", 2.5}, array: arr}, maxN)
+		})
+		add(pre+"[any holding slices and maps]", func(r *engine.Rec) {
+			// dynamic types that Go's == cannot compare
+			run(r, &cfg[any]{name: "any holding slices and maps", alpha: []any{[]int{3, 4}, map[string]int{"k": 1}, []int{6}}, array: arr}, min(maxN, 3))
 		})
 	}
 	ladderN := 40
